@@ -5,6 +5,7 @@ mod model;
 mod ops;
 mod panels;
 mod prng;
+mod proto;
 mod report;
 mod props;
 
